@@ -618,6 +618,29 @@ pub fn check_slice_range(lo: usize, hi: usize, len: usize) requires lo <= hi <= 
 pub uninterp spec fn f64_neg_spec(x: f64) -> f64;
 #[verifier::external_body]
 pub fn f64_neg(x: f64) -> (r: f64) ensures r == f64_neg_spec(x) { -x }
+/// `s.find(|c: char| !c.is_ascii_digit()).unwrap_or(s.len())`: byte offset where the leading run of ASCII digits ends
+pub open spec fn n_leading_digits(s: Seq<char>) -> int
+    decreases s.len()
+{ if s.len() > 0 && ascii_digit(s[0]) { 1 + n_leading_digits(s.subrange(1, s.len() as int)) } else { 0 } }
+#[verifier::external_body]
+pub fn leading_digits_end(s: &str) -> (r: usize)
+    ensures r as int == n_leading_digits(s@), r <= s.spec_bytes().len(), vstd::utf8::is_char_boundary(s.spec_bytes(), r as int), cidx(s@, r as int) == r as int
+{ s.find(|c: char| !c.is_ascii_digit()).unwrap_or(s.len()) }
+/// the tag -> values multimap of the legacy tokeniser, seen as a map from tag to the values pushed under it, in push order
+pub uninterp spec fn mm_view(m: &std::collections::HashMap<String, Vec<(String, usize)>>) -> Map<Seq<char>, Seq<(Seq<char>, usize)>>;
+pub open spec fn mm_put(m: Map<Seq<char>, Seq<(Seq<char>, usize)>>, k: Seq<char>, v: Seq<char>, pos: usize) -> Map<Seq<char>, Seq<(Seq<char>, usize)>> {
+    m.insert(k, (if m.contains_key(k) { m[k] } else { Seq::<(Seq<char>, usize)>::empty() }).push((v, pos)))
+}
+/// `HashMap::with_capacity(n)` / `HashMap::new()`
+#[verifier::external_body]
+pub fn mm_new() -> (r: std::collections::HashMap<String, Vec<(String, usize)>>)
+    ensures mm_view(&r) == Map::<Seq<char>, Seq<(Seq<char>, usize)>>::empty()
+{ std::collections::HashMap::new() }
+/// `m.entry(k).or_default().push((v, pos))`
+#[verifier::external_body]
+pub fn mm_push(m: &mut std::collections::HashMap<String, Vec<(String, usize)>>, k: String, v: String, pos: usize)
+    ensures mm_view(final(m)) == mm_put(mm_view(old(m)), k@, v@, pos)
+{ m.entry(k).or_default().push((v, pos)); }
 /// `String::from(&str)`
 #[verifier::external_body]
 pub fn string_from(s: &str) -> (r: String) ensures r@ == s@ { String::from(s) }
